@@ -456,7 +456,7 @@ var schedulePoints = []string{
 	"compact.begin", "crash:compact.create.hybrid", "crash:compact.written", "crash:compact.added", "crash:compact.removed", "crash:delete.before", "compact.end",
 }
 
-var scheduleActions = []string{"add", "add-forcing-rotation", "search-all", "flush", "evict", "remove-newest"}
+var scheduleActions = []string{"add", "add-forcing-rotation", "search-all", "flush", "evict", "remove-newest", "flush-then-rotating-adds"}
 
 func runC08Schedules(r *ev.Run) {
 	reps := r.Pick(1, 6)
@@ -620,6 +620,16 @@ func runOneSchedule(r *ev.Run, ctl *hookCtl, own *ownership, ci int, rng *rand.R
 				addLog("beside: Flush -> %v", err)
 				if err != nil {
 					repf("store.flush-error", "beside: "+err.Error())
+				}
+			case "flush-then-rotating-adds":
+				// a second flush pass overlapping the paused one, then writes that rotate the queue before it resumes
+				err := s.Flush()
+				addLog("beside: Flush -> %v", err)
+				if err != nil {
+					repf("store.flush-error", "beside: "+err.Error())
+				}
+				for i := 0; i < 3; i++ {
+					add("beside", true)
 				}
 			case "evict":
 				s.VerifEvictAllCaches()
